@@ -333,6 +333,7 @@ func (c *Ctx) Schema() []core.Ob {
 	}
 	sort.Strings(ids)
 	var obs []core.Ob
+	keyN := map[string]int{}
 	for _, id := range ids {
 		e := byID[id]
 		for _, s := range e[0] {
@@ -340,7 +341,12 @@ func (c *Ctx) Schema() []core.Ob {
 				if s.side == r.side {
 					continue
 				}
-				ob := core.Ob{Rule: "R-SCHEMA", Key: fmt.Sprintf("%s:%s->%s", id, s.fn, r.fn), Pos: c.P.Pos(r.pos), Func: r.fn, Armed: true,
+				key := fmt.Sprintf("%s:%s->%s", id, schemaSide(s.fn), schemaSide(r.fn))
+				keyN[key]++
+				if keyN[key] > 1 {
+					key = fmt.Sprintf("%s#%d", key, keyN[key])
+				}
+				ob := core.Ob{Rule: "R-SCHEMA", Key: key, Pos: c.P.Pos(r.pos), Func: r.fn, Armed: true,
 					Want: "the receiver scans a prefix of what the sender marshals for this packet id"}
 				ok := len(r.sig) <= len(s.sig)
 				if ok {
@@ -363,4 +369,17 @@ func (c *Ctx) Schema() []core.Ob {
 	}
 	c.Notes = append(c.Notes, fmt.Sprintf("R-SCHEMA: %d Marshal sites, %d Scan/manual-reader sites in bot, server, server/auth; %d packet ids seen", len(send), len(recv), len(ids)))
 	return obs
+}
+
+// schemaSide: the package of a sender / receiver function. Obligations are
+// keyed by packet id and by the two packages, not by the names of the functions
+// the code happens to live in (moving the Marshal call into a helper keeps the key).
+func schemaSide(fn string) string {
+	if i := strings.Index(fn, ".("); i >= 0 {
+		return fn[:i]
+	}
+	if i := strings.LastIndex(fn, "."); i >= 0 {
+		return fn[:i]
+	}
+	return fn
 }
